@@ -196,6 +196,22 @@ def implUninitCopy (proxyNoStore : Bool) (m : Mem) (s d : View) : Mem :=
 def implDefaultConstruct (trivial : Bool) (m : Mem) (d : View) (v0 : Nat) : Mem :=
   if trivial then m else implUninitFill m d v0
 
+/-! ### for_each_pixel_position / transform_pixel_positions: ONE locator walks the source
+
+  `loc = src.xy_at(0,0); for y { for x { fun(loc); ++loc.x(); }  loc.x() -= width; ++loc.y(); }`: the address is kept incrementally. -/
+
+/-- addresses of the walking locator at the calls of `fun`, `h` rows from address `a` on -/
+def locRows (xs ys : Int) (w : Nat) : Nat → Int → List Int
+  | 0, _ => []
+  | h + 1, a => (List.range w).map (fun (x : Nat) => a + (x : Int) * xs) ++ locRows xs ys w h (a + (w : Int) * xs - (w : Int) * xs + ys)
+
+def implPosAddrs (s : View) : List Int := locRows s.xs s.ys s.w s.h s.base
+
+/-- transform_pixel_positions: the locator walk over src (src's width and height drive the loops), `dstIt = dst.row_begin(y)`, `dstIt[x] = fun(loc)` -/
+def implTransformPos (m : Mem) (s d : View) (f : Nat → Nat) : Mem :=
+  ((implPosAddrs s).zip ((List.range s.h).flatMap (fun y => (List.range s.w).map (fun x => d.addr x y)))).foldl
+    (fun m p => m.set p.2 (f (m.get p.1))) m
+
 /-- cells of a view -/
 def View.cells (v : View) : List Int := specAddrs v
 
